@@ -1932,6 +1932,6 @@ theorem udpBind_explicit (n : NetSt) (name : String) (ep : Ep) (u : UdpSock)
   · rw [e]; simp only [NetSt.bindOk, hu]
 
 theorem Ep.isV4_eq (e : Ep) : e.isV4 = !decide (':' ∈ e.addr.toList) := by
-  unfold Ep.isV4; rw [String.contains_char_eq]
+  unfold Ep.isV4; simp
 
 end SimVerif
